@@ -17,3 +17,18 @@ package utils
 //@        && len(arg1[0].Bytes) == derclen(asnOtherName)
 //@        && forall j int :: 0 <= j && j < derclen(asnOtherName) ==> arg1[0].Bytes[j] == asnOtherName[derhdr(derclen(asnOtherName)) + j]
 //@   site store Extension.Value WHOLE: [C20] requires value == sanBytes
+
+// ---- C20 / C09: a certificate is accepted for an ID exactly when that ID is one of the names read from it
+
+//@ func ReceptorNames
+//@   trusted
+//@   modifies nothing
+//@   ensures result.1 != nil ==> result.0 == nil
+
+//@ func ParseReceptorNamesFromCert
+//@   tags C20 C09
+//@   requires cert != nil
+//@   ensures MATCH: [C20 C09] result.0 == (result.2 == nil && exists i int :: 0 <= i && i < len(result.1) && result.1[i] == expectedHostname)
+//@   ensures ERR: [C20 C09] result.2 != nil ==> !result.0 && result.1 == nil
+//@   loop range receptorNames
+//@     invariant NOTYET: !found && forall j int :: 0 <= j && j <= rangeindex ==> receptorNames[j] != expectedHostname
